@@ -5,7 +5,7 @@ import os, time, json
 import eng_c01
 from engine import WORK
 
-def engine(res, spec, tier, seed, extended=False):
+def engine(res, spec, tier, seed, extended=False, dispatch_only=False):
     import gen_scenario
     t0 = time.time()
     n_sc = 6 if tier == 'quick' else 30
@@ -29,7 +29,7 @@ def engine(res, spec, tier, seed, extended=False):
             d = dict(r['off_shift_dispatch'][0], scenario=os.path.basename(os.path.dirname(sc)), count=len(r['off_shift_dispatch']))
             res.add_found('off_shift_driver_dispatched_in_step', d, {'engine': 'eng_c20', 'scenario': sc, 'steps': steps, 'seed': seed,
                                                                       'kind': 'off_shift_driver_dispatched_in_step', 'detail': d})
-        if r.get('availability_vs_clock') and not [f for f in res.found if f['kind'] == 'availability_differs_from_shift_clock']:
+        if not dispatch_only and r.get('availability_vs_clock') and not [f for f in res.found if f['kind'] == 'availability_differs_from_shift_clock']:
             d = dict(r['availability_vs_clock'][0], scenario=os.path.basename(os.path.dirname(sc)))
             res.add_found('availability_differs_from_shift_clock', d, {'engine': 'eng_c20', 'scenario': sc, 'steps': steps, 'seed': seed,
                                                                         'kind': 'availability_differs_from_shift_clock', 'detail': d})
@@ -89,3 +89,10 @@ def replayer_c17(payload):
     for x in r.get('two_vehicles_one_request', [])[:3]:
         print('reproduced:', json.dumps(x))
     return bool(r.get('two_vehicles_one_request'))
+
+
+def engine_c12(res, spec, tier, seed, extended=False):
+    """C12 where the dispatcher is wired into the step: in scenario runs of the real pipeline no DispatchTripInstruction may take
+    effect for a vehicle whose driver is off shift BY THE CLOCK at the start of that step (eligibility judged from the schedule file,
+    not from the state the dispatcher was handed)"""
+    engine(res, spec, tier, seed, extended, dispatch_only=True)
